@@ -13,6 +13,9 @@ checks = {
 checks["C07"] = dict(cat="fault_enumeration", ref="§7 C07", engine="server", technique="deterministic simulation with crash-point enumeration: real RunATPServer vs a scripted hostile client; EOF / read error / garbage at enumerated byte offsets of the client stream crossed with seeded schedules and step behaviours; reference-decoder model of accepted runs",
    text="Grammar-drawn client scripts (valid and invalid messages, arbitrary CBOR, junk) against the real server with generated plugins whose steps succeed, fail, panic or are slow; base scripts are re-run with a fault at every message boundary +-1 and a stride (quick) or at every byte (thorough); the oracle counts terminal messages per run ID against what a reference decoder accepts from the bytes actually delivered, and decides hangs exactly on the fake clock.",
    note="Trusted: rewriter, synctest, cbor library (also used by the reference decoder), the contract model of 'accepted work-start' stated in DESIGN §7 C07. A panic in a server goroutine is treated as process death. plugin.Run's os.Exit paths and real OS pipes are not simulated.")
+checks["C08"] = dict(cat="fault_enumeration", ref="§7 C08", engine="client", technique="deterministic simulation with crash-point enumeration: real ATP client vs a scripted v3/v1 server; EOF / read error / garbage / stall-then-EOF at enumerated byte offsets of the server stream, client writes failing independently, crossed with seeded schedules; reference-decoder oracle for fabricated results, exact hang detection",
+   text="Generated transcripts (hello with a real self-described schema, work-done, signals, non-fatal/step-fatal/server-fatal errors, unknown IDs, unsupported versions, a schema that does not unserialize) are played reactively by a scripted server; the base transcript is run fault-free and then re-run with each fault kind at every message boundary +-1 and a stride (quick) or every byte (thorough). A success is legitimate only if a well-formed work-done for that run is present in the bytes actually delivered; every call and Close must return (decided exactly on the fake clock).",
+   note="Trusted: rewriter, synctest, cbor (also used by the reference decoder). Premise enforced: the server stream ends, errors or garbles; runs where only the client's writes failed while the server stream stayed intact (or was still stalled when Close's 5 s wait expired) are excluded and counted in the evidence.")
 not_yet = {
 }
 na = {
@@ -49,6 +52,7 @@ m = {
    "add_only": True,
  },
  "engines": [
+   {"name": "client", "path": "harness/engine_client.go", "serves_properties": ["C08", "C06"], "kind_free_text": "real atp client vs scripted v3/v1 server with byte-offset fault injection on the server stream (fault-free healthy transcripts serve C06)"},
    {"name": "server", "path": "harness/engine_server.go", "serves_properties": ["C07"], "kind_free_text": "real atp server vs scripted client with byte-offset fault injection on the client stream"},
    {"name": "session", "path": "harness/session.go", "serves_properties": ["C05", "C06"], "kind_free_text": "real atp client <-> real atp server over simulated pipes under the seeded scheduler (zzsimrt) inside a testing/synctest bubble"},
  ],
